@@ -17,7 +17,19 @@ KP = "wannierberri/grid/Kpoint.py"
 KT = "wannierberri/grid/Kpoint_tetra.py"
 GT = "wannierberri/grid/grid_tetra.py"
 GR = "wannierberri/grid/grid.py"
+SOCF = "wannierberri/w90files/soc.py"
+SSOC = "wannierberri/system/system_soc.py"
+SYSR = "wannierberri/system/system_R.py"
+RVEC = "wannierberri/fourier/rvectors.py"
 MUTANTS = [
+    dict(prop="C25", name="C_ss: sign of sin in first row", file=SOCF, old="C_ss = np.array([[ct2 * ep2, -st2 * ep2],", new="C_ss = np.array([[ct2 * ep2, st2 * ep2],"),
+    dict(prop="C25", name="pauli_rotated: einsum indices swapped", file=SOCF, old="'ai,abc,bj->ijc', C_ss.conj(), pauli_xyz, C_ss", new="'ia,abc,bj->ijc', C_ss.conj(), pauli_xyz, C_ss"),
+    dict(prop="C25", name="double_spin: only spin-up block", file=SYSR, old="            for i in range(2):\n                XX_new[:, i::2, i::2] = XX", new="            for i in range(1):\n                XX_new[:, i::2, i::2] = XX"),
+    dict(prop="C25", name="rvec double_spin: right shifts from left", file=RVEC, old="            shifts_right_red_new[i::2] = self.shifts_right_red", new="            shifts_right_red_new[i::2] = self.shifts_left_red"),
+    dict(prop="C25", name="HH_K soc: down block from up", file=DKS, old="        H[:, 1::2, 1::2] = self.data_K_down.HH_K", new="        H[:, 1::2, 1::2] = self.data_K_up.HH_K"),
+    dict(prop="C25", name="set_soc_axis: (1,0) block without conj", file=SSOC, old='soc_R_W[:, 1::2, ::2] = cached_einsum("rmnc,c->rmn", self.rvec.conj_XX_R(dV01), pauli_rotated[1, 0, :])', new='soc_R_W[:, 1::2, ::2] = cached_einsum("rmnc,c->rmn", dV01, pauli_rotated[1, 0, :])'),
+    dict(prop="C25", name="set_soc_axis: alpha applied twice on nspin=1", file=SSOC, old="        self.set_R_mat('Ham_SOC', soc_R_W * alpha_soc, reset=True)", new="        self.set_R_mat('Ham_SOC', soc_R_W * alpha_soc * (alpha_soc if self.nspin == 1 else 1), reset=True)"),
+    dict(prop="C25", name="get_system_R: down uses up map", file=SSOC, old="            matrix[rvectors_map_list[2], 1::2, 1::2] += self.system_down.get_R_mat(key)", new="            matrix[rvectors_map_list[1], 1::2, 1::2] += self.system_down.get_R_mat(key)"),
     dict(prop="C06", name="divide: newfac uses ndiv[0]**3", file=KP, old="newfac = self.factor / np.prod(ndiv)", new="newfac = self.factor / ndiv[0] ** 3"),
     dict(prop="C06", name="divide: parent keeps weight", file=KP, old="        self.set_factor(0)  # the K-point is \"dead\" but can be used for restarting again from an intermediate refinement level", new="        pass"),
     dict(prop="C06", name="divide: adpt_shift sign", file=KP, old="adpt_shift = (-self.dK + dK_adpt) / 2.", new="adpt_shift = (self.dK - dK_adpt) / 2."),
